@@ -662,6 +662,12 @@ def run_C01(ctx):
     res5 = ctx.vh_isolated("types-chain", r4.out, chunk=1, tag="D", timeout=120, sig_prefix="c01")
     ctx.absorb(res5, "G:types-chain(or diamonds)")
     ctx.cov["or_diamond_timings"] = (res5.get("extra") or {}).get("timings")
+    # macro diamonds: the expanded tree doubles with every level by the language's own semantics (model: ASSUME of
+    # MC_C01macro); the time of the real build is measured
+    r6 = ctx.tlc("MC_C01macro", timeout=600)
+    res6 = ctx.vh_isolated("macro-chain", r6.out, chunk=1, tag="D", timeout=300, sig_prefix="c01")
+    ctx.absorb(res6, "G:macro-chain(macro diamonds)")
+    ctx.cov["macro_diamond_timings"] = (res6.get("extra") or {}).get("timings")
     # fuzz
     n = 300000 if ctx.quick else 6000000
     fz = _fuzz_ranges(ctx, ctx.seed, n)
